@@ -4,7 +4,7 @@
 # property named in meta.json (and of any extra ids given), records the outcome in <seeded-dir>/result.json and
 # restores /repo with `git checkout -- .`. /repo must be clean and nothing else may be building from it meanwhile.
 set -u
-D=${1%/}; shift
+D=$(realpath "${1%/}"); shift
 [ -f "$D/patch.diff" ] || { echo "no patch in $D"; exit 2; }
 [ -z "$(git -C /repo status --porcelain)" ] || { echo "/repo is not clean"; exit 2; }
 PROP=$(python3 -c "import json,sys; print(json.load(open('$D/meta.json'))['property'])")
